@@ -54,5 +54,7 @@ def run(check):
     from ..rules_support import rule_read_sig_flag_gating, rule_options_forwarded
     check.run_rule('C20.R10', lambda c: rule_options_forwarded(c, 'C20.R10'))
     check.run_rule('C20.R11', lambda c: rule_read_sig_flag_gating(c, 'C20.R11'))
+    from ..rules_defuse import rule_sentinel_identity
+    check.run_rule('C20.R12', lambda c: rule_sentinel_identity(c, 'C20.R12', ['support'], '-- bind_callsig disagrees with CPython about a parameter having a default', floor=1))
     from ..rules_support import rule_read_sig_insertion_index
     check.run_rule('C20.R8', lambda c: rule_read_sig_insertion_index(c, 'C20.R8'))
